@@ -223,6 +223,30 @@ PROPS = {'C18': {'title': 'Inflights window is a bounded FIFO under resizing',
                      'm.commit; heartbeats advertise commit <= matched'],
          'undecided': ["'a non-leader's commit index never moves beyond an index some leader committed' and survival under minority crash (global)"],
          'assumptions': ['mode S for raft.rs and raw_node.rs', 'VecDeque::front/back: standard semantics assumed (no vstd spec)', 'ProgressTracker::get_mut assumed (HashMap::get_mut has no vstd spec)', 'R10/R9 of C11']},
+ 'C12': {'title': 'Configuration-change algebra keeps invariants and quorum overlap',
+         'modules': ['top', 'prelude', 'pb', 'inflights', 'progress', 'quorum', 'tracker', 'confchange'],
+         'body': ['confchange'],
+         'cone': ['quorum', 'tracker'],
+         'modes': ['P'],
+         'claim': 'PROOF for Changer::{simple, enter_joint, leave_joint} + ProgressTracker::apply_conf and the quorum-overlap lemmas; the ConfState round trip '
+                  '(confchange::restore, Configuration::to_conf_state) is NOT decided here',
+         'decided': ['IncrChangeMap::contains: the LATEST logged change of an id decides (icm_dom); check_invariants returns Ok IFF cfg_checked (the stated '
+                     'disjointness / staging / tracking conditions), for every configuration and change log',
+                     'Changer::apply is the left fold of the reference step function sp_apply_one over the change list and rejects exactly the results without '
+                     'incoming voters; make_voter / make_learner / remove / init_progress equal their reference steps',
+                     'simple / enter_joint / leave_joint: the returned configuration is the stated function of the tracker configuration and the change list; '
+                     'from a configuration satisfying cfg_inv (voters and learners disjoint, staged learners inside the outgoing voters, progress for EXACTLY '
+                     'the members, nothing staged / no auto-leave outside joint) the result satisfies cfg_inv again, has an incoming voter, simple changes the '
+                     'incoming voters by at most one member and is refused while joint; legal simple changes are accepted; a refused change cannot touch the '
+                     'tracker (the methods take &self / return new values: checked by the borrow discipline)',
+                     'ProgressTracker::apply_conf installs the configuration and the progress-map domain becomes icm_dom(changes); untouched entries keep '
+                     'their Progress',
+                     'lemma_c12_{simple,enter_joint,leave_joint}_overlap: a deciding set (strict majority of incoming, and of outgoing when joint) before the '
+                     'change shares a voter with any deciding set after it, for the result shapes the three contracts establish'],
+         'undecided': ['Restoring the ConfState of a reachable configuration reproduces it (confchange::restore / to_conf_state: not under contract)',
+                       'that callers (Raft::apply_conf_change) only pass configurations satisfying cfg_inv (needs the invariant over the whole run)'],
+         'assumptions': ['std iterator adapters rfind / extend / drain / symmetric_difference().count() / Union::iter as specified helpers (R9)',
+                         'derive(Clone) of tracker::Configuration copies the sets (R9)', 'protobuf ConfChangeSingle / ConfChangeType stubs']},
  'C15': {'title': 'Snapshot install and log compaction preserve state and safety',
          'modules': ['top', 'prelude', 'pb', 'inflights', 'progress', 'quorum', 'tracker', 'log_unstable', 'storage_trait', 'raft_log', 'raft'],
          'body': {'P': ['log_unstable', 'raft_log', 'progress'], 'S': ['log_unstable', 'raft_log', 'progress']},
